@@ -181,16 +181,16 @@ EndWalk == /\ (pc = "pop" /\ stack = <<>>) \/ pc = "end"
            /\ UNCHANGED <<cfg, cur, chain, total, dedup, asked, fp, emitted, ab, flip, dev>>
 
 (* ---------------- tracker driven directly (roots = <<>>) ------------------------------------------ *)
-TVisit(k, ret) == /\ pc = "idle" /\ VisitKey(k, ret)
+TVisit(k, ret) == /\ pc = "idle" /\ cfg.roots = <<>> /\ VisitKey(k, ret)
                   /\ UNCHANGED <<cfg, wi, stack, pc, cur, emitted, left, exp, done, ab, flip, dev>>
-THas(k, ret) == /\ pc = "idle"
+THas(k, ret) == /\ pc = "idle" /\ cfg.roots = <<>>
                 /\ IF Has(chain, k) THEN ret = TRUE /\ UNCHANGED <<chain, fp>>
                    ELSE \/ ret = FALSE /\ UNCHANGED <<chain, fp>>
                         \/ ret = TRUE /\ cfg.trk = "bloom" /\ fp' = TRUE
                            /\ chain' = [chain EXCEPT ![Len(chain)].pos = @ \cup {k}]
                 /\ UNCHANGED <<cfg, wi, stack, pc, cur, total, dedup, asked, emitted, left, exp, done, ab, flip, dev>>
 \* n Visit calls on keys never used before or after, nt of which returned true
-TBulk(n, nt) == /\ pc = "idle" /\ nt <= n /\ (cfg.trk # "bloom" => nt = n)
+TBulk(n, nt) == /\ pc = "idle" /\ cfg.roots = <<>> /\ nt <= n /\ (cfg.trk # "bloom" => nt = n)
                 /\ chain' = InsertAnon(chain, nt) /\ total' = total + nt /\ dedup' = dedup + (n - nt)
                 /\ fp' = (fp \/ nt < n)
                 /\ UNCHANGED <<cfg, wi, stack, pc, cur, asked, emitted, left, exp, done, ab, flip, dev>>
